@@ -97,7 +97,7 @@ func init() {
 		ID:       "C02",
 		Title:    "single-term matching follows the version / + / exception / ref rules",
 		Explorer: "E1 exhaustive id x spelling x exception pair enumeration vs R-term, plus symmetry and reflexivity",
-		Rule: "terms = every listed license id (active+deprecated) in spellings {X, X+, X-only, X-or-later, lower, upper} that are valid, with exception contexts, plus 8 reference terms; " +
+		Rule: "terms = every listed license id (active+deprecated) in spellings {X, X+, X-only, X-or-later, lower, upper} that are valid, with exception contexts, plus 8 reference terms; every id whose name starts with the text of a range-table id x that relative (plain, +) x every listed exception on one side and on both; " +
 			"state = unordered pair of terms, transitions = the two Satisfies(a,[b]) / Satisfies(b,[a]) calls; quick: full cross product over the ids of the family table + neighbourhood pairs for all other ids, thorough: full cross product over all ids; " +
 			"non-trivial = pairs of textually different terms for which the rule says 'match', or that belong to the same family and do not match",
 		Assumptions: []string{
@@ -276,6 +276,34 @@ func c02Run(c *Ctx) {
 			}
 		}
 	}
+	// ids whose name starts with the text of a range-table id (GPL-2.0-with-GCC-exception, GPL-2.0-only ...)
+	// against that relative, with and without '+', carrying EVERY listed exception, on one side and on both
+	nrel := 0
+	for k, id := range all {
+		rel := nameRelatives(id)
+		if len(rel) == 0 {
+			continue
+		}
+		nrel++
+		if !c.Mine(int64(k)) {
+			continue
+		}
+		for _, m := range rel {
+			for _, b := range []string{m, m + "+"} {
+				if !NormTerm(b).Valid {
+					continue
+				}
+				for _, e := range t.Exceptions {
+					if c.Expired() {
+						return
+					}
+					c02Pair(c, id, b+" WITH "+e)
+					c02Pair(c, id+" WITH "+e, b+" WITH "+e)
+				}
+			}
+		}
+	}
+	c.Bound("name_relative_pairs", map[string]any{"ids_with_name_relatives": nrel, "exceptions": len(t.Exceptions)})
 	// exception contexts on the table ids
 	var base []string
 	for _, id := range tableIDs {
